@@ -22,6 +22,7 @@ type Ctx struct {
 	bandsOnce sync.Once
 	bands     *tables.Bands
 	bandsErr  error
+	seen      map[string]bool
 }
 
 type CheckFn func(*Ctx)
